@@ -247,10 +247,35 @@ type vC18Mcu struct {
 	objs    map[int]signaling.McuClient
 	byUuid  map[string]int
 	outcome string // outcome of the next create / remote command / payload
+	// outcome "late": the creation blocks (ignoring its context, like a media server
+	// whose answer is already on the wire) until the harness sends the real outcome
+	gate    chan string
+	waiting map[chan string]bool
 }
 
-func (m *vC18Mcu) create() (int, error) {
-	switch m.outcome {
+// enter is called at the start of a creation; for "late" it waits for the release.
+func (m *vC18Mcu) enter() string {
+	m.mu.Lock()
+	oc, gate := m.outcome, m.gate
+	if oc == "late" && gate != nil {
+		m.waiting[gate] = true
+		m.gate = nil
+	}
+	m.mu.Unlock()
+	if oc == "late" {
+		if gate == nil {
+			return "fail"
+		}
+		oc = <-gate
+		if oc == "late" {
+			oc = "fail"
+		}
+	}
+	return oc
+}
+
+func (m *vC18Mcu) create(oc string) (int, error) {
+	switch oc {
 	case "fail":
 		return 0, errors.New("media server says no")
 	case "timeout":
@@ -262,9 +287,10 @@ func (m *vC18Mcu) create() (int, error) {
 }
 
 func (m *vC18Mcu) NewPublisher(ctx context.Context, listener signaling.McuListener, id string, sid string, streamType signaling.StreamType, settings signaling.NewPublisherSettings, initiator signaling.McuInitiator) (signaling.McuPublisher, error) {
+	oc := m.enter()
 	m.mu.Lock()
 	defer m.mu.Unlock()
-	n, err := m.create()
+	n, err := m.create(oc)
 	if err != nil {
 		return nil, err
 	}
@@ -275,9 +301,10 @@ func (m *vC18Mcu) NewPublisher(ctx context.Context, listener signaling.McuListen
 }
 
 func (m *vC18Mcu) NewSubscriber(ctx context.Context, listener signaling.McuListener, publisher string, streamType signaling.StreamType, initiator signaling.McuInitiator) (signaling.McuSubscriber, error) {
+	oc := m.enter()
 	m.mu.Lock()
 	defer m.mu.Unlock()
-	n, err := m.create()
+	n, err := m.create(oc)
 	if err != nil {
 		return nil, err
 	}
@@ -297,6 +324,21 @@ func (m *vC18Mcu) openList() []int {
 	}
 	sort.Ints(res)
 	return res
+}
+
+// vC18Creator is the proxy session an object was created for (its listener).
+func vC18Creator(o interface{}) uint64 {
+	var l signaling.McuListener
+	switch x := o.(type) {
+	case *vC18Pub:
+		l = x.listener
+	case *vC18Sub:
+		l = x.listener
+	}
+	if s, ok := l.(*ProxySession); ok && s != nil {
+		return s.Sid()
+	}
+	return 0
 }
 
 type vC18Obj struct {
@@ -440,10 +482,13 @@ type vC18World struct {
 	pubIds map[uint64]string // session id -> public id ever seen
 	byIP   map[string]int
 	marks  []string
+	busy   map[int]chan string // connection -> gate of the creation its handler is blocked in
+	armed  chan string         // gate handed to the media server by the op being executed
+	armedC int
 }
 
 func vC18NewWorld(t *testing.T, cfg string) *vC18World {
-	w := &vC18World{t: t, ks: vC18Keys(), base: time.Now(), conns: map[int]*vC18Conn{}, pubIds: map[uint64]string{}, byIP: map[string]int{}}
+	w := &vC18World{t: t, ks: vC18Keys(), base: time.Now(), conns: map[int]*vC18Conn{}, pubIds: map[uint64]string{}, byIP: map[string]int{}, busy: map[int]chan string{}}
 	config := goconf.NewConfigFile()
 	if cfg != "-" && cfg != "" {
 		for _, p := range strings.Split(cfg, ",") {
@@ -459,7 +504,7 @@ func vC18NewWorld(t *testing.T, cfg string) *vC18World {
 		t.Fatalf("NewProxyServer: %v", err)
 	}
 	w.proxy = proxy
-	w.mcu = &vC18Mcu{TestMCU: TestMCU{t: t}, open: map[int]bool{}, objs: map[int]signaling.McuClient{}, byUuid: map[string]int{}, outcome: "ok"}
+	w.mcu = &vC18Mcu{TestMCU: TestMCU{t: t}, open: map[int]bool{}, objs: map[int]signaling.McuClient{}, byUuid: map[string]int{}, outcome: "ok", waiting: map[chan string]bool{}}
 	proxy.mcu = w.mcu
 	w.lis = &vC18Listener{ch: make(chan net.Conn), done: make(chan struct{})}
 	w.srv = &http.Server{Handler: r}
@@ -468,6 +513,11 @@ func vC18NewWorld(t *testing.T, cfg string) *vC18World {
 }
 
 func (w *vC18World) shutdown() {
+	for c, g := range w.busy {
+		g <- "fail"
+		delete(w.busy, c)
+	}
+	synctest.Wait()
 	for _, c := range w.conns {
 		c.ws.Close()
 	}
@@ -625,9 +675,56 @@ func (w *vC18World) resumeId(kind string, n int) string {
 	}
 }
 
+// connOf is the connection an op line is about (-1: none).
+func vC18ConnOf(f []string) int {
+	switch f[0] {
+	case "connect", "close", "hello", "invalid", "cmd", "payload", "bye", "other":
+		if len(f) > 1 {
+			v, _ := strconv.Atoi(f[1])
+			return v
+		}
+	}
+	return -1
+}
+
+// after runs at quiescence: did the media server start waiting on the gate armed by this op?
+func (w *vC18World) after() {
+	if w.armed == nil {
+		return
+	}
+	w.mcu.mu.Lock()
+	waiting := w.mcu.waiting[w.armed]
+	w.mcu.gate = nil
+	w.mcu.outcome = "ok"
+	w.mcu.mu.Unlock()
+	if waiting {
+		w.busy[w.armedC] = w.armed
+	}
+	w.armed = nil
+}
+
 func (w *vC18World) exec(f []string) {
 	atoi := func(s string) int { v, _ := strconv.Atoi(s); return v }
+	if c := vC18ConnOf(f); c >= 0 {
+		if _, busy := w.busy[c]; busy {
+			// the handler of this connection is blocked in the media server: not part of the model
+			return
+		}
+	}
 	switch f[0] {
+	case "release":
+		c := atoi(f[1])
+		if g, ok := w.busy[c]; ok {
+			delete(w.busy, c)
+			w.mcu.mu.Lock()
+			delete(w.mcu.waiting, g)
+			w.mcu.mu.Unlock()
+			if f[2] == "late" {
+				w.busy[c] = g
+			} else {
+				g <- f[2]
+			}
+		}
 	case "connect":
 		w.connect(atoi(f[1]))
 	case "close":
@@ -675,6 +772,10 @@ func (w *vC18World) exec(f []string) {
 		setOutcome := func(o string) {
 			w.mcu.mu.Lock()
 			w.mcu.outcome = o
+			if o == "late" {
+				w.armed, w.armedC = make(chan string, 1), c
+				w.mcu.gate = w.armed
+			}
 			w.mcu.mu.Unlock()
 		}
 		switch f[2] {
@@ -915,7 +1016,7 @@ func (w *vC18World) observe() string {
 	var ents []ent
 	for id, o := range p.clients {
 		n, k := vC18ObjNum(o)
-		s := fmt.Sprintf("%d%s", n, k)
+		s := fmt.Sprintf("%d%s@%d", n, k, vC18Creator(o))
 		if p.clientIds[o.Id()] != id {
 			s += "!ids"
 		}
@@ -933,7 +1034,10 @@ func (w *vC18World) observe() string {
 	}
 	var mo []string
 	for _, n := range w.mcu.openList() {
-		mo = append(mo, strconv.Itoa(n))
+		w.mcu.mu.Lock()
+		o := w.mcu.objs[n]
+		w.mcu.mu.Unlock()
+		mo = append(mo, fmt.Sprintf("%d@%d", n, vC18Creator(o)))
 	}
 	res := fmt.Sprintf("out=%s S=%s C=%s%s M=%s K=%s", vC18Join(outs), vC18Join(ss), vC18Join(cl), extra, vC18Join(mo), vC18Join(open))
 	if len(w.marks) > 0 {
@@ -967,6 +1071,7 @@ func vC18Exec(t *testing.T, c *vCase) {
 			}
 			w.exec(f)
 			synctest.Wait()
+			w.after()
 			c.Impl = append(c.Impl, w.observe())
 		}
 	})
